@@ -22,7 +22,7 @@ EXPLANATION = (
     'defaults go through apply; (e) Enum extension validates every value '
     'against the base, Schema compatibility requires equal key sets.  The '
     'containment between acceptance sets itself is not decided.')
-FLOORS = {'C04.a': 18, 'C04.b': 12, 'C04.c': 12, 'C04.d': 2, 'C04.e': 4}
+FLOORS = {'C04.a': 9, 'C04.b': 6, 'C04.c': 6, 'C04.d': 1, 'C04.e': 2}
 FILES = ['pyglove/core/typing/value_specs.py', 'pyglove/core/typing/class_schema.py',
          'pyglove/core/typing/key_specs.py', 'pyglove/core/typing/type_conversion.py']
 VS = 'pyglove.core.typing.value_specs.'
@@ -211,13 +211,13 @@ def rule_b(ctx):
                  f'a spec with an upper bound `{attr}` rejects an `other` whose bound is None (unbounded)',
                  f.loc, f'no `other.{attr} is None -> return False` test: a bounded spec is declared '
                  f'compatible with an unbounded one')
-  if nrows < 9:
+  if nrows < 5:
     raise AnalysisError(f'only {nrows} polarity rows extracted')
   # value-against-bound rows of the typing package
   n = 0
   for q in (VS + 'Number._validate', VS + 'List._validate', VS + 'Tuple._apply'):
     n += c03.check_value_bound_rows(ctx, 'C04.b', idx.func(q), ('value', 'len'))
-  if n < 5:
+  if n < 3:
     raise AnalysisError(f'only {n} value-against-bound rows')
 
 
@@ -248,7 +248,7 @@ def rule_c(ctx):
           if len(p) == 3 and p[0] == 'self' and p[2] in ('append', 'extend', 'update', 'pop', 'clear', 'add', 'remove'):
             bad.append(f'{d}() at line {x.lineno}')
       ctx.ob('C04.c', m.fq, not bad, 'applying a spec never changes the spec', m.loc, '; '.join(bad))
-  if n < 12:
+  if n < 6:
     raise AnalysisError(f'only {n} apply/_apply/_validate methods found')
 
 
@@ -293,6 +293,55 @@ def rule_d(ctx):
          'freeze no longer calls set_default')
 
 
+def _neg_fact(cond):
+  """Canonical text of `not cond`."""
+  if isinstance(cond, ast.UnaryOp) and isinstance(cond.op, ast.Not):
+    return A.unparse(cond.operand)
+  if isinstance(cond, ast.Compare) and len(cond.ops) == 1:
+    flip = {ast.NotIn: ' in ', ast.In: ' not in ', ast.IsNot: ' is ', ast.Is: ' is not ',
+            ast.NotEq: ' == ', ast.Eq: ' != '}
+    for k, v in flip.items():
+      if isinstance(cond.ops[0], k):
+        return A.unparse(cond.left) + v + A.unparse(cond.comparators[0])
+  return 'not (' + A.unparse(cond) + ')'
+
+
+def _universal_facts(f):
+  """[(fact_text, iterable_text, unconditional)] established for every element
+  of an iterable before the function can return True: from
+  `for x in it: if c: return False`, `if any(c for x in it): return False`
+  and `return all(a and b for x in it)`."""
+  out = []
+  for n in ast.walk(f.node):
+    if isinstance(n, ast.For):
+      it = A.unparse(n.iter)
+      for st in n.body:
+        if isinstance(st, ast.If):
+          direct = len(st.body) == 1 and isinstance(st.body[0], ast.Return) and \
+              A.unparse(st.body[0].value) == 'False' and not st.orelse
+          if direct:
+            out.append((_neg_fact(st.test), it, True))
+          else:
+            # a nested / conditional rejection: record as conditional
+            for sub in ast.walk(st):
+              if isinstance(sub, ast.If) and any(isinstance(x, ast.Return) and A.unparse(x.value) == 'False' for x in sub.body):
+                out.append((_neg_fact(sub.test), it, False))
+    elif isinstance(n, ast.If) and isinstance(n.test, ast.Call) and A.call_name(n.test) == 'any' \
+        and n.test.args and isinstance(n.test.args[0], ast.GeneratorExp) \
+        and len(n.body) == 1 and isinstance(n.body[0], ast.Return) and A.unparse(n.body[0].value) == 'False':
+      ge = n.test.args[0]
+      uncond = all(not c.ifs for c in ge.generators)
+      out.append((_neg_fact(ge.elt), A.unparse(ge.generators[0].iter), uncond))
+    elif isinstance(n, ast.Return) and isinstance(n.value, ast.Call) and A.call_name(n.value) == 'all' \
+        and n.value.args and isinstance(n.value.args[0], ast.GeneratorExp):
+      ge = n.value.args[0]
+      uncond = all(not c.ifs for c in ge.generators)
+      elts = ge.elt.values if isinstance(ge.elt, ast.BoolOp) and isinstance(ge.elt.op, ast.And) else [ge.elt]
+      for e in elts:
+        out.append((A.unparse(e), A.unparse(ge.generators[0].iter), uncond))
+  return out
+
+
 def rule_e(ctx):
   idx = ctx.index
   # Enum._extend: each value is applied to the base
@@ -315,21 +364,24 @@ def rule_e(ctx):
   ok = 'for v in other.values' in t and 'v not in self.values' in t and 'return False' in t
   ctx.ob('C04.e', f.fq, ok, 'Enum compatibility requires other.values ⊆ self.values', f.loc,
          'subset test changed')
-  # Schema.is_compatible: equal key sets, unconditional
+  # Schema.is_compatible: equal key sets and compatible shared fields, unconditional
   f = idx.func(CS + 'Schema.is_compatible')
-  g = C.cfg_of(f.node)
-  for txt, what in (('key_spec not in self', 'every key of other exists in self'),
-                    ('key_spec not in other', 'every key of self exists in other')):
-    ts = [k for k in g.nodes if k.kind == 'test' and A.unparse(k.ast) == txt]
-    ok = bool(ts) and all(any(m.kind == 'return' and A.unparse(m.ast.value) == 'False' and l == 'true'
-                              for m, l in k.succ) for k in ts)
-    ctx.ob('C04.e', f.fq + f'#{txt}', ok,
-           f'schema compatibility: {what}, unconditionally (a missing key returns False at once)',
-           f.loc, 'the missing-key test is gone or tolerated under an extra condition')
-  ts = [k for k in g.nodes if k.kind == 'test' and 'is_compatible' in A.unparse(k.ast)]
-  ok = bool(ts) and all(any(m.kind == 'return' and A.unparse(m.ast.value) == 'False' for m, l in k.succ) for k in ts)
-  ctx.ob('C04.e', f.fq + '#field-values', ok, 'each shared field\'s value spec must be compatible', f.loc,
-         'per-field compatibility test changed')
+  facts = _universal_facts(f)
+  need = [
+      ('key in self (for every key of other)', lambda fact, it: fact.endswith(' in self') and 'other' in it,
+       'every key of other exists in self'),
+      ('key in other (for every key of self)', lambda fact, it: fact.endswith(' in other') and 'self' in it,
+       'every key of self exists in other'),
+      ('field compatible', lambda fact, it: '.is_compatible(other[' in fact and 'self' in it,
+       'each shared field\'s value spec is compatible'),
+  ]
+  for name, pred, what in need:
+    ok = any(pred(fact, it) and uncond for fact, it, uncond in facts)
+    present = any(pred(fact, it) for fact, it, uncond in facts)
+    ctx.ob('C04.e', f.fq + '#' + name, ok,
+           f'schema compatibility: {what}, unconditionally (a failing element makes the result False at once)',
+           f.loc, 'the test is gone' if not present else
+           'the test is tolerated under an extra condition / filter')
   # Union: compatible iff some candidate is / all of other's candidates are
   f = idx.func(VS + 'Union.is_compatible')
   t = A.unparse(f.node, 2000)
@@ -351,16 +403,22 @@ def rule_e(ctx):
          'base compatibility rejects another class and a noneable other for a non-noneable self',
          f.loc, '; '.join(problems))
   # ValueSpecBase.extend: frozen base / noneable widening rejected
+  from sa import surface as S3
   f = idx.func(VS + 'ValueSpecBase.extend')
-  g = C.cfg_of(f.node)
-  ts = {A.unparse(k.ast): k for k in g.nodes if k.kind == 'test'}
+  ts = {}
+  for h in S3.helper_closure(idx, f):
+    gh = C.cfg_of(h.node)
+    for k in gh.nodes:
+      if k.kind == 'test':
+        ts.setdefault(A.unparse(k.ast), (gh, k))
   problems = []
   for txt in ('base.frozen', 'self._is_noneable'):
     if txt not in ts:
       problems.append(f'test `{txt}` vanished')
-  k = ts.get('self._is_noneable')
-  if k is not None and not g.always_raises_from(k, 'true'):
-    problems.append('a noneable spec may extend a non-noneable base')
+  if 'self._is_noneable' in ts:
+    gh, k = ts['self._is_noneable']
+    if not gh.always_raises_from(k, 'true'):
+      problems.append('a noneable spec may extend a non-noneable base')
   ctx.ob('C04.e', f.fq, not problems,
          'extension rejects a frozen base (unless equally frozen) and noneable widening', f.loc,
          '; '.join(problems))
